@@ -16,6 +16,7 @@
 from __future__ import annotations
 
 import json
+import os
 import random
 
 from .. import common, tlc
@@ -355,8 +356,8 @@ class Judge:
             self.rep.violation(full, f"{case}: the resolver failed with {obs.get('err')}")
             return
         if obs["proxy"]:
-            q = dict(id=len(self.pending), objs=ctx["objs"], expr=ctx["expr"], names=ctx["names"],
-                     cls=ctx["cls"], start=start, obs=obs["path"])
+            q = dict(objs=ctx["objs"], expr=ctx["expr"], names=ctx["names"], cls=ctx["cls"], start=start,
+                     obs=obs["path"], alt=ans["alt"], altd=ans["altd"])
             self.pending.append((case, full, q, nontrivial))
             return
         self._set_verdict(case, full, obs["res"], ans, nontrivial)
@@ -387,7 +388,11 @@ class Judge:
     def flush(self, label):
         if not self.pending:
             return
-        res = tlc_paths(self.rep, [q for _, _, q, _ in self.pending], label)
+        uniq = {}
+        for _, _, q, _ in self.pending:            # the three ways mostly observe the same path
+            key = common.canon(q)
+            q["id"] = uniq.setdefault(key, len(uniq))
+        res = tlc_paths(self.rep, list({q["id"]: q for _, _, q, _ in self.pending}.values()), label)
         for case, full, q, nontrivial in self.pending:
             r = res[q["id"]]
             full = dict(full, path_verdicts={k: r[k] for k in ("doc", "sms", "pln", "both")})
@@ -401,9 +406,10 @@ class Judge:
                     need = devs
                     break
             if need:
-                for d in need[:-1]:
-                    self.rep.known.setdefault(self.fid[d], 0)
-                self.rep.known_finding(self.fid[need[-1]], case)
+                for d in need:                 # one case, possibly explained by two clauses together
+                    self.rep.known_finding(self.fid[d], case)
+                self.rep.evaluations -= len(need) - 1
+                self.rep.traces -= len(need) - 1
             else:
                 self.rep.violation(full, f"{case}: the proxy path {q['obs']} (objects by id) is not the path of a "
                                          f"derivation of the deciding alternative ending in its target")
@@ -475,6 +481,10 @@ def _mc(rep, quick):
 
 
 def _contexts(rep, rng, quick):
+    # VT_SCALE < 1 shrinks the run (harness debugging only; recorded in the evidence)
+    scale = float(os.environ.get("VT_SCALE", "1") or 1)
+    if scale != 1:
+        rep.note(f"VT_SCALE={scale}: reduced run")
     models = curated_models()
     nrand = 6 if quick else 40
     for i in range(nrand):
@@ -494,6 +504,8 @@ def _contexts(rep, rng, quick):
     n_enum = 0
     for n in range(1, bound + 1):
         for e in E.exprs(n):
+            if scale < 1 and rng.random() > scale:
+                continue
             n_enum += 1
             for _ in range(per):
                 mk = rng.choice(keys)
@@ -514,7 +526,7 @@ def _contexts(rep, rng, quick):
         for names in all_names(model_alphabet(objs)[:2]):
             ctxs.append(dict(model=mk, objs=objs, expr=e, names=names, cls="Class", flags=[""], src="allnames"))
     # (I->S) walk-guided random expressions of up to ~8 nodes, small and big models
-    nguided = 900 if quick else 12000
+    nguided = int((900 if quick else 12000) * scale)
     allm = dict(models)
     allm.update(big)
     akeys = sorted(allm)
@@ -525,7 +537,7 @@ def _contexts(rep, rng, quick):
         if rng.random() < 0.1:
             cls = "OBJECT"
         ctxs.append(dict(model=mk, objs=objs, expr=e, names=names, cls=cls, flags=["", "p"], src="guided"))
-    nrandom = 150 if quick else 3000
+    nrandom = int((150 if quick else 3000) * scale)
     for _ in range(nrandom):
         mk = rng.choice(akeys)
         objs = allm[mk]
@@ -560,13 +572,13 @@ def run(rep):
     real = D.Real()
     judge = Judge(rep, findings)
     ctxs = _witness_ctxs(findings) + _contexts(rep, rng, quick)
-    every = 6 if quick else 3
+    every = 4 if quick else 2
 
     def ways_for(c, start, flags):
         if c.get("witness"):
             return ["find", "grammar", "provider"]
         if c["cls"] != "OBJECT" and c["id"] % every == 0:
-            return ["find", "grammar", "provider"]
+            return ["find", "provider", "grammar"] if c["id"] % (3 * every) == 0 else ["find", "provider"]
         return ["find"]
     n = run_batch(rep, real, judge, ctxs, ways_for, "RrelOracle")
     rep.exhaustive = False
@@ -597,7 +609,8 @@ def replay(path):
         return 1
     if obs["proxy"]:
         pr, _ = tlc.oracle("RrelOracle", [dict(id=0, q="path", objs=objs, expr=expr, names=names, cls=case["cls"],
-                                               start=case["start"], obs=obs["path"])])
+                                               start=case["start"], obs=obs["path"], alt=ans["alt"],
+                                               altd=ans["altd"])])
         print("path verdicts:", {k: pr[0][k] for k in ("doc", "sms", "pln", "both")})
         return 0 if pr[0]["doc"] else 1
     ok = (obs["res"] == 0 and not ans["allowed"]) or obs["res"] in ans["allowed"]
